@@ -8,7 +8,15 @@
                               handed offset i * batch (the last chunk may be shorter; all of v is processed serially when batch = 0)
    permute(v)                 math/src/fft/concurrent.rs: task b handles i in [b*batch, (b+1)*batch), swaps (i, rev(i)) when rev(i) > i
    build_merkle_nodes(leaves) crypto/src/merkle/concurrent.rs: after the leaf level, task i computes the nodes of its subtree level
-                              by level (start = n/2 + bs*i, bs = n/subtrees/2, halving); the top `subtrees` nodes serially  *)
+                              by level (start = n/2 + bs*i, bs = n/subtrees/2, halving); the top `subtrees` nodes serially
+   transpose(segments)        prover/src/matrix/row_matrix.rs: the row-major LDE of `rows` rows and `segs` segments is written in
+                              batches of whole rows: batches = 2*next_pow2(threads) once rows*segs >= 1024 (capped at `rows` since
+                              fix 3ec6385; TransposeCapped = FALSE is the code before it), rows_per_batch = rows / batches,
+                              chunk b of rows*segs/batches cells receives rows b*rows_per_batch .. +rows_per_batch-1
+   evaluate (fragments)       prover/src/constraints/evaluator/default.rs + evaluation_table.rs: with at least 8192 rows the
+                              constraint-evaluation table is cut into next_pow2(threads) fragments of rows/fragments rows (>= 16);
+                              row i of fragment f is step f*size + i of the evaluation domain, and the periodic values of a step
+                              are row (step mod table length) of the periodic table                                           *)
 EXTENDS Naturals, Sequences, FiniteSets, TLC
 
 NextPow2(x) == CHOOSE p \in {2 ^ i : i \in 0..12} : p >= x /\ (p = 1 \/ p \div 2 < x)
@@ -58,4 +66,47 @@ MerkleOK(n, threads) ==
                \A ch \in {2 * k, 2 * k + 1} : ch >= n \/ ch \in W(i)
         /\ parallel \cup serialTop \cup (n..(2 * n - 1)) = 1..(2 * n - 1)                  \* every node is computed exactly once
         /\ parallel \cap serialTop = {}
+
+\* ---- row-matrix transposition -------------------------------------------------------------------------------------
+CONSTANT TransposeCapped
+Min2(a, b) == IF a <= b THEN a ELSE b
+TransposeBatches(rows, segs, threads) ==
+    LET nb == IF rows * segs < 1024 THEN 1 ELSE 2 * NextPow2(threads)
+    IN  IF TransposeCapped THEN Min2(nb, rows) ELSE nb
+\* cell index (row-major, one cell per row and segment) written by batch b for its local row i and segment j, and the cell
+\* the serial code writes for the same (row, segment)
+TransposeOK(rows, segs, threads) ==
+    LET nb == TransposeBatches(rows, segs, threads)
+        rpb == rows \div nb
+        chunk == (rows * segs) \div nb
+        Cell(b, i, j) == b * chunk + i * segs + j
+        Written == {Cell(b, i, j) : b \in 0..(nb - 1), i \in 0..(rpb - 1), j \in 0..(segs - 1)}
+    IN  /\ chunk >= 1
+        /\ Written = 0..(rows * segs - 1)                                                  \* every cell is written
+        /\ \A b \in 0..(nb - 1), i \in 0..(rpb - 1), j \in 0..(segs - 1) :
+               Cell(b, i, j) = (b * rpb + i) * segs + j                                    \* with the value of its row and segment
+
+\* the same statement by arithmetic alone (used for the large sizes; the set form above is checked against it on the small ones)
+TransposeOKArith(rows, segs, threads) ==
+    LET nb == TransposeBatches(rows, segs, threads)
+        rpb == rows \div nb
+        chunk == (rows * segs) \div nb
+    IN  chunk >= 1 /\ rpb * nb = rows /\ chunk = rpb * segs
+
+\* ---- constraint evaluation in fragments ---------------------------------------------------------------------------
+Fragments(rows, threads) == IF rows >= 8192 THEN NextPow2(threads) ELSE 1
+FragmentsOK(rows, threads) ==
+    LET nf == Fragments(rows, threads)
+        size == rows \div nf
+        Steps(f) == {f * size + i : i \in 0..(size - 1)}
+    IN  /\ size >= 16                                                                       \* the assertion in fragments()
+        /\ UNION {Steps(f) : f \in 0..(nf - 1)} = 0..(rows - 1)
+        /\ \A f, g \in 0..(nf - 1) : f # g => Steps(f) \cap Steps(g) = {}
+\* the periodic values used for row i of fragment f are those of the global step: (f*size + i) mod table; a lookup by the local
+\* index i alone is right only when every fragment offset is a multiple of the table length
+PeriodicLookupOK(rows, threads, table, byLocalIndex) ==
+    LET nf == Fragments(rows, threads)
+        size == rows \div nf
+    IN  \A f \in 0..(nf - 1) : \A i \in {0, 1, size - 1} :
+            (IF byLocalIndex THEN i % table ELSE (f * size + i) % table) = (f * size + i) % table
 =============================================================================
